@@ -100,7 +100,9 @@ var c07CustomForms = []c07Form{
 // Surrounding text. The last one is a decoy: the very same construct, on a line of its own, inside a branch
 // that is not taken (for render-time failures; parse-time kinds get plain text instead) - the error must
 // still name the line of the occurrence that failed.
-var c07Layouts = []string{"", "x\n", "\ny \n", "\x00decoy"}
+// The third one holds terminated raw and comment blocks whose tags wrap over lines (newlines INSIDE the opening and
+// end tags, in the bodies, and a CRLF): every one of those newlines counts.
+var c07Layouts = []string{"", "x\n", "\n{% raw\n%} r\n{{ {% endraw\n %}y{% comment %}c\n{%\nendcomment\r\n%} \n", "\x00decoy"}
 
 var c07Locs = []struct {
 	path string
